@@ -98,8 +98,37 @@ impl BitMat {
     }
     pub fn rank(&self) -> usize {
         let mut m = self.clone();
-        let c = m.cols;
-        m.rref(c).len()
+        m.rank_destructive()
+    }
+    /// rank by forward elimination only (rows below the pivot), in place
+    pub fn rank_destructive(&mut self) -> usize {
+        let mut r = 0;
+        for c in 0..self.cols {
+            if r >= self.rows {
+                break;
+            }
+            let mut p = None;
+            for i in r..self.rows {
+                if self.get(i, c) {
+                    p = Some(i);
+                    break;
+                }
+            }
+            let Some(p) = p else { continue };
+            self.swap_rows(r, p);
+            let w0 = c / 64; // words left of the pivot are already zero in the rows below
+            for i in (r + 1)..self.rows {
+                if self.get(i, c) {
+                    let (a, b) = (i * self.w, r * self.w);
+                    for k in w0..self.w {
+                        let v = self.d[b + k];
+                        self.d[a + k] ^= v;
+                    }
+                }
+            }
+            r += 1;
+        }
+        r
     }
 }
 
